@@ -676,8 +676,9 @@ SCHEMA_LOOPY = r'''
 #q2: "lab"/_/"a2"/#KEY <= #root
 #p3: "lab"/"c"/_/#KEY <= #q1 | #q2
 #data: "lab"/"data"/_ <= #p1
+#data2: "lab"/"data2"/_ <= #p2
 '''
-LOOP_KINDS = ('intact', 'intact-debug-logging', 'two-cycle-debug-logging', 'intact-two-at-once', 'intact-second-while-waiting', 'two-cycle-one-full-name', 'two-cycle', 'three-cycle', 'names-itself', 'cycle-behind-intact-prefix')
+LOOP_KINDS = ('intact', 'valid-after-refused-cycle', 'intact-debug-logging', 'two-cycle-debug-logging', 'intact-two-at-once', 'intact-second-while-waiting', 'two-cycle-one-full-name', 'two-cycle', 'three-cycle', 'names-itself', 'cycle-behind-intact-prefix')
 
 
 def loopy_world(kind):
@@ -688,7 +689,8 @@ def loopy_world(kind):
             'D': ('/lab/c/a2/KEY/%01', 'ec256_4')}
     # who signs whose certificate ('R' = the anchor)
     plan_ = {'intact': {'A': 'C', 'C': 'R'}, 'intact-two-at-once': {'A': 'C', 'C': 'R'}, 'intact-second-while-waiting': {'A': 'C', 'C': 'R'},
-             'two-cycle': {'A': 'B', 'B': 'A'}, 'two-cycle-one-full-name': {'A': 'B', 'B': 'A'}, 'three-cycle': {'A': 'B', 'B': 'D', 'D': 'A'}, 'names-itself': {'A': 'C', 'C': 'C'},
+             'two-cycle': {'A': 'B', 'B': 'A'}, 'two-cycle-one-full-name': {'A': 'B', 'B': 'A'}, 'valid-B-under-A': {'A': 'R', 'B': 'A'},
+             'valid-after-refused-cycle': {'A': 'B', 'B': 'A'}, 'three-cycle': {'A': 'B', 'B': 'D', 'D': 'A'}, 'names-itself': {'A': 'C', 'C': 'C'},
              'cycle-behind-intact-prefix': {'A': 'C', 'C': 'B', 'B': 'A'}}[kind]
 
     def build(locators):
@@ -710,6 +712,8 @@ def loopy_world(kind):
                     out[who] = (nm, bytes(cert))
                 pk = [bytes(enc.make_data(f'/lab/data/{i}', enc.MetaInfo(freshness_period=1000), b'x', signer_for(keyn['A'][1], out['A'][0])))
                       for i in (1, 2)]
+                if 'B' in out:
+                    pk.append(bytes(enc.make_data('/lab/data2/3', enc.MetaInfo(freshness_period=1000), b'x', signer_for(keyn['B'][1], out['B'][0]))))
         return out, pk
     first, _ = build({})
     certs, pk = build({k: v[0] for k, v in first.items()})
@@ -735,7 +739,24 @@ def run_loops(kind):
         net.serve(H)
         val = lvs_validator(Checker(compile_lvs(SCHEMA_LOOPY), DEFAULT_USER_FNS), net.app, certs['R'][1])
         want = kind.startswith('intact')
-        if kind == 'intact-second-while-waiting':
+        if kind == 'valid-after-refused-cycle':
+            # first the certificates retrievable under the names of A and B name each other: refused. Later the proper certificates
+            # are retrievable under the same names (A certified by the anchor, B by A): the same validator must accept packet - B - A - anchor
+            res = net.validate(val, pk[0])
+            results = [(res.get('v') is False or res.get('v'), res['done'])]
+            if res.get('v') is not False:
+                viol.append((f'C14|loops|{kind}|first-verdict={res.get("v")}', 'the circular chain was not refused'))
+            good, pk2 = loopy_world('valid-B-under-A')
+            if [good[k][0] for k in 'AB'] != [certs[k][0] for k in 'AB']:
+                raise AssertionError('harness: certificate names of the two worlds differ')
+            H.store.clear()
+            H.store.update({bytes(enc.Name.to_bytes(nm)): w for k, (nm, w) in good.items() if k != 'R'})
+            net.requests.clear()
+            res = net.validate(val, pk2[2])
+            results = [(res.get('v'), res['done'])]
+            reqs = res['requests']
+            want = True
+        elif kind == 'intact-second-while-waiting':
             # the certificate of the issuer is slow; a second packet of the same signer is handed to the validator meanwhile
             out = {}
             net.hold = {bytes(enc.Name.to_bytes(certs['C'][0]))}
